@@ -12,10 +12,11 @@ Each sub-directory holds a change to WilsonGregory/ginjax written by a fresh sub
 the text of one property and its own scratch git worktree of `/repo` (never `/verif`): `patch.diff`, the
 demonstration `demo.py` (exits 0 on the unmodified tree, non-zero with the patch) and `meta.json` (what it
 breaks, what it needs in order to manifest, which tests the agent ran, and what I ran to confirm it).
-Round 1 = one change per property; round 2 (`-r2-` in the name) = a second, different change per property,
-the agent being told what round 1 had done so that it would pick another mechanism.
+Round 1 = one change per property; rounds 2 and 3 (`-r2-`, `-r3-` in the name) = further, different changes per
+property, the agent being told what the earlier rounds had done so that it would pick another mechanism (round 3
+additionally asked for subtle changes around corner values and rarely used options).
 
-Procedure used to confirm each one (`seeded_confirm.sh`, `seeded_confirm2.sh`): run the demo on a scratch
+Procedure used to confirm each one (`seeded_confirm.sh`, `seeded_confirm2.sh`, `seeded_confirm3.sh`): run the demo on a scratch
 worktree with the patch (must fail) and on `/repo` (must pass); `git -C /repo apply patch.diff`; run the quick
 checks; `git -C /repo checkout -- .`.  None of these changes is ever committed to `/repo`.  All of them are
 replayed by `./selftest` (as `seeded:<name>`) next to the hand-written mutants.
@@ -25,9 +26,10 @@ replayed by `./selftest` (as `seeded:<name>`) next to the hand-written mutants.
 NOTES = """
 ## What the seeds taught
 
-Of the 40 independent changes (two per property), 25 were reported by the checks as first written.  Fifteen
-were not -- missed (exit 0) or undecided (exit 2) -- and the checks were strengthened (never loosened) until
-they were; each strengthening is a wider box, a stronger oracle or a new rule, not a special case for the seed:
+Of the 60 independent changes (three per property), 40 were reported by the named property's check as first
+written (13 / 12 / 15 of 20 in rounds 1 / 2 / 3).  Twenty were not -- missed (exit 0) or undecided (exit 2) --
+and the checks were strengthened (never loosened) until they were; each strengthening is a wider box, a stronger
+oracle, a new rule or a newly modelled library function, not a special case for the seed:
 
 Round 1
 * `C01-same-padding-transposed-asymmetric` -- missed: no box combined image dilation with a *string* padding; C01 and C04 now sweep `'SAME'`/default padding with `lhs_dilation`.
@@ -47,6 +49,13 @@ Round 2
 * `C13-r2-from-images-leading-axes` -- missed: `from_images` was only swept with the default layout.
 * `C15-r2-pool-2d-not-2powd` -- missed: `downsample` was 0/1 only (where 2d = 2^d); 2 and 3 joined the box.
 * `C19-r2-falsy-zero-loss` -- missed: no representative state had loss 0; 0 and every numeric literal of `stop()` (with its neighbours) are now loss representatives.
+
+Round 3
+* `C05-r3-multicontract-trace-descending-pairs` -- undecided (exit 2): the re-implementation used `jnp.trace`, which the interpreter did not model; `trace`, `diagonal`, `rot90`, the `*stack` family, `append`, `full_like` ... were added.
+* `C06-r3-same-padding-even-image-dilation` -- missed by C06 (reported by C01 and C04): C06 swept image dilation only with explicit padding; SAME / default / integer / VALID joined.
+* `C10-r3-groupaverage-threads-state` -- missed: the uninterpreted inner model ignored the auxiliary state; it is now a function of (input, state) returning a new state, and the wrapper must hand every transformed copy the caller's state.
+* `C11-r3-falsy-padding-zero` -- missed by C11 (reported by C04): the layer box had no integer padding; 0, 1, 2 joined (with image dilation and anisotropic stride).
+* `C17-r3-choice-with-replacement` -- undecided (exit 2): `jax.random.choice` was not modelled; without replacement it is a permutation prefix, with replacement the draw is recorded and reported.
 
 The C20 round-2 agent also noticed, independently, the defect repaired as F13 (output types in order of first
 reachability when the bank lacks a filter type).
